@@ -145,6 +145,11 @@ def oracle(rec):
         acc += ran
         if ins is None:
             return f"call base={c['base']}: get_insights() failed: {o.get('insights_error')}"
+        missing = [key for key in ('n_completed_tasks', 'start_up_ratio', 'working_ratio', 'top_5_max_task_durations', 'top_5_max_task_args',
+                                   'working_time', 'start_up_time', 'init_time', 'waiting_time', 'exit_time') if key not in ins]
+        if missing:
+            return (f"call base={c['base']} ({c['kind']}): insights are enabled but get_insights() returned {str(ins)[:80]} "
+                    f"(missing {missing[:3]})")
         cnt = ins['n_completed_tasks']
         if len(cnt) != nj:
             return f"call base={c['base']}: {len(cnt)} counter entries for n_jobs={nj}"
